@@ -159,6 +159,21 @@ CLAIMED["C05"] = {
     "design": "5 C05",
 }
 
+CLAIMED["C16"] = {
+    "text": "CharParser.tla puts the escape automaton of the parser (flags, digit buffers, process_octal/hex/unicode, end-of-literal flush) "
+            "next to a direct statement of C++ escape decoding and TLC checks equality on every literal body of length <= 4 (5 thorough) "
+            "over 13 characters plus 31 long forms (\\U at every boundary, octal and hex edges); Literals.tla puts the buildInt ladder "
+            "next to the [lex.icon] table over symbolic boundary values 2^k+d and TLC checks equality on all 384 cells. Every body is then "
+            "evaluated as a string (and char) literal and compared byte for byte with the reference decoding; every ladder cell is "
+            "instantiated in every base and suffix spelling and compared for type and value; seeded float spellings are compared with the "
+            "correctly rounded value within 4 ulp; identifiers colliding with a special word under the parser's own hash function (found by "
+            "search, re-verified against the current hash at check time) and near-miss spellings must be ordinary usable names.",
+    "note": "Float rounding is decided natively (decimal arithmetic), not by TLC; spellings that are not C++ literals (08, 1e, 1uu, "
+            "> 2^64-1) are outside the property; interpolation markers are not part of the escape family.",
+    "technique": "TLA+ refinement checks of the transcribed automaton and ladder (TLC) + exhaustive replay of TLC-exported literals",
+    "design": "5 C16",
+}
+
 PENDING_REASON = "check not built yet in this session; planned (see DESIGN.md section 8)"
 
 ALL = [f"C{i:02d}" for i in range(1, 21)]
